@@ -114,6 +114,8 @@ structure Setup where
   qmax : Nat := 4096
   follow : Bool := true
   replayCatch : Bool := true
+  flushInt : Nat := 0          -- ns
+  flushBeforeErase : Bool := true
   sinks : List Sink := []
   lgs : List Lg := []
 
@@ -123,8 +125,11 @@ def mkState (u : Setup) (hdr strOv now : Nat) : BSt :=
              strOverhead := strOv, batchPct := u.batchPct, qp := qp, invalidBits := u.invalidBits,
              refreshAfterSample := u.refreshAfter, catchAllFormat := u.catchAll,
              reportBeforeFlushCleanup := u.reportFlush, cleanupKeepsUnreported := u.keepUnreported, flushInvalidatedLoggers := u.flushInvalid,
-             replayCatchesPerEvent := u.replayCatch },
-    now := now, sinks := u.sinks, lgs := u.lgs,
+             replayCatchesPerEvent := u.replayCatch, flushInterval := u.flushInt,
+             flushBeforeLoggerErase := u.flushBeforeErase },
+    -- the calibration polls of the harness's `start` ran an idle pass at `now`: with a non-zero interval that pass
+    -- flushed (the steady clock is far from its epoch) and recorded `now` as `_last_sink_flush_time`
+    now := now, lastFlush := now, sinks := u.sinks, lgs := u.lgs,
     names := (List.range u.lgs.length).map (fun i => ((u.lgs.getD i default).gid, i)) }
 
 def runTrace : IO UInt32 := do
@@ -165,6 +170,7 @@ def runTrace : IO UInt32 := do
         | some ("flushInvalid", v) => u := { u with flushInvalid := v == "1" }
         | some ("follow", v) => u := { u with follow := v == "1" }
         | some ("replayCatch", v) => u := { u with replayCatch := v == "1" }
+        | some ("flushBeforeErase", v) => u := { u with flushBeforeErase := v == "1" }
         | _ => pure ()
     | "cfg" :: rest =>
       for x in rest ++ Drv.words obsS do
@@ -177,6 +183,7 @@ def runTrace : IO UInt32 := do
           u := { u with dropping := (nat! v) % 2 == 1, unbounded := isU }
         | some ("qmax", v) => u := { u with qmax := nat! v }
         | some ("qcap", v) => u := { u with qcap := nat! v }
+        | some ("flushint", v) => u := { u with flushInt := nat! v * 1000000 }
         | _ => pure ()
     | "sink" :: sid :: rest =>
       let mut k : Sink := { sid := nat! sid }
